@@ -40,7 +40,7 @@ CLAIMED = {
          "DESIGN.md §3-C09"),
  "C10": ("the three goroutine literals of (*Watcher).Run put under contract as closure units (captured variables arbitrary): per-entry transition contract of the head scan (range over the pending map; ghost counter of receipt lookups; old() = head of the iteration), at-assertions at the hand-off sites, contract on MessageEventsForTransaction (contract/topic/status filter), ghost head-read counter ordering the head read before the receipt request; SMT; counterexample histories replayed on the real Run against an in-process JSON-RPC node",
          "Deductive proof per head event and per pending entry, for every head value (any jump), consistency level, confirmation mode and receipt answer: the entry is forwarded iff the head is at least its block number plus the required confirmations (zero for safe/finalized heads or when confirmations are not honoured), a receipt lookup made in that same scan returned success status and the entry's own block hash; then it is sent exactly once and leaves the table; no lookup and no change before the depth is reached; a lookup is always made once it is reached (a head jump no longer abandons unseen entries: found, replayed, repaired); not-found / failed / re-mined entries are dropped; a transient RPC error keeps the entry until the abandonment window has passed (it used to drop it: found, replayed, repaired); other entries untouched. Log intake records block number, block hash and consistency level of the delivered log and forwards nothing. Re-observation: exactly one head read, before the receipt request, forward iff receipt block + confirmations <= that head and head != 0; messages only from logs of the configured contract whose first topic is the message-published topic in a receipt with status 1.",
-         "Trusted: govc, SMT solvers. Run's own body (dial, subscriptions, supervisor) is not verified; goroutine interleaving is not modelled: each literal is verified alone and the pending-table invariant wfPending is assumed at every loop head (the other literals are proved to preserve it; accesses are under pendingMu, which is not modelled). Environment (assumed contracts of the RPC connector, listed): answers are arbitrary except go-ethereum's client shape (no (nil,nil) receipt, receipt has a block number < 2^62, logs have >= 1 topic, ParseLogMessagePublished copies the log into Raw); block numbers of delivered logs < 2^62; abandonment window <= 2^32. The poller (poller.go) and the connector wrappers (connector.go) are exercised by the replay harness only.",
+         "Trusted: govc, SMT solvers. Run's own body (dial, subscriptions, supervisor) is not verified; goroutine interleaving is not modelled: each literal is verified alone and the pending-table invariant wfPending is assumed at every loop head (the other literals are proved to preserve it; accesses are under pendingMu, which is not modelled). Environment (assumed contracts of the RPC connector, listed): answers are arbitrary except go-ethereum's client shape (no (nil,nil) receipt, receipt has a block number < 2^62, logs have >= 1 topic, ParseLogMessagePublished copies the log into Raw); block numbers of delivered logs < 2^62; abandonment window <= 2^32. Of the block poller, getBlock (number present, safe flag passed through) and pollBlocks (publishes only a head newer than the last one, nothing on error) are under contract; its run loop, the feed plumbing and the connector wrappers (connector.go) are exercised by the replay harness only.",
          "DESIGN.md §3-C10"),
  "C11": ("functional contracts (accept-iff-fits + exact value) on the field decoders, ToWormholeMessage, toMessagePublication, parseAttestToken (offsets extracted from token_bridge.ral), hex/base58 helpers; inverse lemma; SMT",
          "Deductive proof for all event fields: an event is decoded iff its six fields fit the VAA format and then carries exactly those values, the block timestamp split as (ms div 1000, ms mod 1000) and chain id 255; out-of-range or negative values are rejected, never wrapped; attestation payload offsets equal the Ralph encoder's; no panic.",
